@@ -30,3 +30,22 @@ Theorem C08_gen_guards :
   guard_row "check_last_skr_key_present" = Some ("check_chain_keys_in_hsm"%string, 1, 1).
 Proof. exact gen_chain_guards. Qed.
 Print Assumptions C08_gen_guards.
+
+(* "a previous SKR whose own signatures do not verify is refused": the loader's validation visits every bundle *)
+Theorem C08_gen_response_validation :
+  Gen.Skeleton.validate_response_shape =
+    ["if len(response.bundles) != policy.num_bundles: raise PolicyViolation"%string; "for bundle in response.bundles: check_valid_signatures(bundle, policy)"%string; "return True"%string] /\
+  Gen.Skeleton.check_valid_signatures_shape =
+    ["if not policy.validate_signatures: return"%string;
+     "try: if not validate_signatures(bundle): raise InvalidSignatureViolation except InvalidSignature: raise InvalidSignatureViolation"%string].
+Proof. exact gen_response_validation. Qed.
+Print Assumptions C08_gen_response_validation.
+
+Theorem C08_gen_chain_overlap :
+  Gen.Skeleton.check_chain_overlap_shape =
+    ["if not policy.check_chain_overlap: return"%string; "previous = last_skr.bundles[-1]"%string; "ksr_first = ksr.bundles[0]"%string;
+     "overlap = previous.expiration - ksr_first.inception"%string;
+     "if overlap < ksr.zsk_policy.min_validity_overlap: raise KSR_CHAIN_OVERLAP_Violation"%string;
+     "if overlap > ksr.zsk_policy.max_validity_overlap: raise KSR_CHAIN_OVERLAP_Violation"%string].
+Proof. exact gen_chain_overlap. Qed.
+Print Assumptions C08_gen_chain_overlap.
